@@ -92,6 +92,8 @@ def split_known(bad, truth_by_line, known):
         ts = [t for t in truth_by_line.get(line, []) if t['kind'] == kind or (kind == 'binary' and t['kind'] == 'binary')]
         if ts and any(comment_between_parts(t['kind'], t['text']) for t in ts):
             known['D43-comment-child'] += 1
+            if os.environ.get('VERIF_DEBUG_D43'):
+                print('D43', json.dumps(b, default=str)[:600])
         else:
             keep.append(b)
     return keep
